@@ -797,6 +797,7 @@ func TestCheck(t *testing.T) {
 	r := vlib.NewRunner(t, "C03")
 	vlib.RunCheck(r, vlib.Check[Case]{Name: "lifecycle", N: r.Pick(400, 10000), Gen: gen, Run: runCase, Confirm: true, RecordCurrent: true})
 	vlib.RunCheck(r, vlib.Check[Churn]{Name: "churn", N: r.Pick(160, 4000), Gen: genChurn, Run: runChurn, Confirm: true, RecordCurrent: true})
+	vlib.RunCheck(r, vlib.Check[PendingDials]{Name: "pending-dials", N: r.Pick(240, 6000), Gen: genPendingDials, Run: runPendingDials, Confirm: true, RecordCurrent: true})
 	runShimTier(r)
 	r.Finish()
 }
